@@ -252,6 +252,8 @@ def call_obligation(ctx, rep, world, pr, p, b, bi, t, info, n_site, r32_sinks):
         return  # obligations of the callee are checked in the callee's own body
     if name in fb.bodies:
         return
+    if name == "wrath_header::inner_crypto::InnerCrypto::apply" and "rc4::Rc4::apply_keystream" in fb.bodies:
+        return  # the term engine's name for Rc4::apply_keystream on the stream wrapper's cipher (a crate function, checked in its own body)
     short = name.split("::")[-1]
     seq = n_site.get(name, 0)
     n_site[name] = seq + 1
